@@ -64,8 +64,8 @@ def gen_grid(rng, S):
         ys = [Fr(i) for i in range(ny)] if defy else gen.axis_q(rng, ny)
         flat = gen.vals_q(rng, gen.shape_size(shape))
     else:
-        xs = [float(i) for i in range(nx)] if defx else gen.axis_f(rng, nx, rng.choice(["uniform", "geometric", "random", "ulps"]))
-        ys = [float(i) for i in range(ny)] if defy else gen.axis_f(rng, ny, rng.choice(["uniform", "geometric", "random", "log"]))
+        xs = [float(i) for i in range(nx)] if defx else gen.axis_f(rng, nx, rng.choice(["uniform", "geometric", "random", "ulps", "evenish"]))
+        ys = [float(i) for i in range(ny)] if defy else gen.axis_f(rng, ny, rng.choice(["uniform", "geometric", "random", "log", "evenish"]))
         flat = [rng.uniform(-1, 1) * 10.0 ** rng.randint(-3, 5) for _ in range(gen.shape_size(shape))]
     return shape, defx, defy, xs, ys, flat
 
@@ -115,6 +115,19 @@ def generate(rng, tier):
             shape, defx, defy, xs, ys, flat = gen_grid(rng, S)
             qx, qy = queries2(rng, xs, ys, rng.randint(2, 8), S)
             cases.append(build_line(rng, S, shape, defx, defy, xs, ys, flat, qx, qy, False))
+    # i64 elements: judged by the model correspondence only (integer division is not the real-number statement)
+    for _ in range(50 if tier == "quick" else 1200):
+        nx, ny = rng.choice([2, 3, 4, 7]), rng.choice([2, 3, 5])
+        shape = [nx, ny] + gen.trailing_shape(rng, 1)
+        xs = gen.axis_i(rng, nx, rng.choice(["unit", "uniform", "random", "gappy", "small"]))
+        ys = gen.axis_i(rng, ny, rng.choice(["unit", "uniform", "random", "gappy", "small"]))
+        flat = [rng.randint(-1000, 1000) for _ in range(gen.shape_size(shape))]
+        k = rng.randint(2, 6)
+        qx = [rng.choice(gen.queries_i(rng, xs, 8)) for _ in range(k)]
+        qy = [rng.choice(gen.queries_i(rng, ys, 8)) for _ in range(k)]
+        c = build_line(rng, "I", shape, False, False, xs, ys, flat, qx, qy, False)
+        c["meta"]["int"] = True
+        cases.append(c)
     return cases
 
 
@@ -132,6 +145,8 @@ def oracle(case, res, ext=False):
     want_shape = m["qshape"] + m["shape"][2:] if m["entry"] != "scalar" else []
     if res.shape != want_shape:
         return f"result shape must be {want_shape}, got {res.shape}"
+    if m.get("int"):
+        return None
     xs, ys = [Fr(v) for v in m["xs"]], [Fr(v) for v in m["ys"]]
     grid = grid_of(m["shape"], [Fr(v) for v in m["flat"]])
     exact, cells = [], []
